@@ -227,6 +227,8 @@ def case_set_y(prop, cls, R, N, Dy, Dx, tag=""):
         c = mk_cond(m, rng, cls, R, Dy, Dx, tag=tag)
         y = gen.points(rng, N, Dy, 1.5); x = gen.points(rng, 3, Dx, 1.5)
         yr = m.arr(y); xr = m.arr(x)
+        if "upd" in tag:                   # history: the likelihood was already built once, then the noise was replaced
+            m.set_y(c.reg, yr); mutate_cond(m, rng, c)
         f = m.set_y(c.reg, yr)
         params = dict(cls=cls, R=R, N=N, Dy=Dy, Dx=Dx)
         if m.regs.get(f) is None:
